@@ -40,6 +40,7 @@ class Hub(object):
         self._subscriptions = WeakKeyDictionary()
 
         self._paused = False
+        self._delay_count = 0
         self._queue = []
 
         self._ignore = Counter()
@@ -199,15 +200,18 @@ class Hub(object):
 
     @contextmanager
     def delay_callbacks(self):
+        self._delay_count += 1
         self._paused = True
         try:
             yield
         finally:
-            self._paused = False
-            # TODO: could de-duplicate messages here
-            for message in self._queue:
-                self.broadcast(message)
-            self._queue = []
+            self._delay_count -= 1
+            if self._delay_count == 0:
+                self._paused = False
+                # TODO: could de-duplicate messages here
+                queue, self._queue = self._queue, []
+                for message in queue:
+                    self.broadcast(message)
 
     def broadcast(self, message):
         """Broadcasts a message to all subscribed objects.
